@@ -209,7 +209,7 @@ def run_souden_wmwf(key):
             cands = [r for r in range(D) if snr_w[r] >= snr_w.max() * (1 - 1e-9 * cond)]
             hit = None
             for r in cands:
-                if np.abs(ww - filt[..., r]).max() <= rt * (1 + np.abs(ww).max()):
+                if np.abs(ww - filt[..., r]).max() <= rt * np.abs(ww).max() + 1e-300:     # relative: tiny targets
                     hit = r
             if hit is None:
                 return viol('WMWF automatic reference is not a maximiser of the SNR criterion')
@@ -347,8 +347,10 @@ def subchecks(tier, seed):
                 for F in Fs + (17, 24, 31):
                     for sk in steers:
                         for nk in noises:
-                            for sigma in (1e-3, 1.0, 1e3):
+                            for sigma in (1e-3, 1.0, 1e3, 1e-9, 1e-12):
                                 for ref in ('each', 'auto'):
+                                    if sigma < 1e-6 and (ref != 'auto' or sk != 'generic' or D not in (2, 5)):
+                                        continue      # target far below the noise: automatic reference
                                     for mu in (0.0, 0.5, 1.0, 100.0):
                                         if F in (17, 24, 31) and F not in Fs and (
                                                 ref != 'auto' or sk != 'generic' or sigma != 1.0 or D not in (2, 5)
